@@ -3249,3 +3249,17 @@ fn format_type_mismatch(expected_ty: &Type, actual_ty: &Type) -> ErrorMessage {
 
     ErrorMessage(parts)
 }
+
+/// Wrappers exposing private items to the verification hooks.
+#[cfg(wilfred_garden_verif)]
+pub(crate) mod verif_access {
+    use super::*;
+
+    pub(crate) fn unify(ty_1: &Type, ty_2: &Type) -> Option<Type> {
+        super::unify(ty_1, ty_2)
+    }
+
+    pub(crate) fn unify_all(tys: &[(Type, Position)]) -> Result<Type, (Type, Type, Position)> {
+        super::unify_all(tys)
+    }
+}
